@@ -10,7 +10,9 @@ import (
 	"encoding/json"
 	"fmt"
 	"hash"
+	"runtime/debug"
 	"sort"
+	"strings"
 	"time"
 )
 
@@ -240,10 +242,41 @@ func PlanJSON(plan interface{}) json.RawMessage {
 func SafeExecute(e Engine, plan interface{}, c *Ctx) (v *Verdict) {
 	defer func() {
 		if r := recover(); r != nil {
+			// whose panic? One raised in the code under test (or below it) is a finding; one raised in the simulator's
+			// own code is a broken harness and must never be reported as a violation (exit 2 class).
+			if panicOrigin(debug.Stack()) == "harness" {
+				v = Fail("harness", "panic in the simulator's own code: %v", r)
+				return
+			}
 			v = Fail("panic", "panic during run: %v", r)
 		}
 	}()
 	return e.Execute(plan, c)
+}
+
+// panicOrigin walks the stack of a recovered panic from the panic call outwards and names the first frame that
+// is neither the runtime nor a library below the two parties: "library" (filippo.io/age) or "harness" (verif/sim).
+func panicOrigin(stack []byte) string {
+	seenPanic := false
+	for _, l := range strings.Split(string(stack), "\n") {
+		if l == "" || strings.HasPrefix(l, "\t") || strings.HasPrefix(l, "goroutine ") {
+			continue
+		}
+		if strings.HasPrefix(l, "panic(") {
+			seenPanic = true
+			continue
+		}
+		if !seenPanic {
+			continue
+		}
+		switch {
+		case strings.HasPrefix(l, "filippo.io/age"):
+			return "library"
+		case strings.HasPrefix(l, "verif/sim"):
+			return "harness"
+		}
+	}
+	return "library"
 }
 
 // Shrink is greedy delta debugging over the engine's candidate list; a
